@@ -32,7 +32,7 @@ type c13Case struct {
 var c13Contents = []string{"@REPEAT:20000:ab\r\n@", "x@REPEAT:20000:ab\r\n@", "xy@REPEAT:9000:line\r\n@", "xyz@REPEAT:40000:\r\n@", "@REPEAT:40000:\r\n@", "@REPEAT:70000:\r@", "", "plain text\n", "a\r\nb\r\n", "cr only\rnext\r", "mixed\r\n\r\r\n\n", "\x00\x01\x02binary\xff\r\n\x00", "no newline", "\r", "\n", "\r\n"}
 
 func c13Gen(t *rapid.T) c13Case {
-	dirs := []string{"", "sub", "sub/deep", "sub/deep/er", "other", "a", "b"}
+	dirs := []string{"", "sub", "sub/deep", "sub/deep/er", "other", "a", "b", "ab", "sub2"} // "ab" / "sub2": siblings whose names continue another directory's name
 	fileNames := []string{"f1", "f2.txt", "data.bin", "x.skip", "ignored.txt", "keep.skip.txt", "x"}
 	var nodes []hx.TNode
 	used := map[string]bool{}
